@@ -591,6 +591,28 @@ def _observe(chart, desc, baseline, idx_ok, op, report, requested_type=None):
     return root, recs, idx_ok
 
 
+def _decorate(chart, how):
+    """Non-data content inside the series that replace_data must leave alone (custom point label text,
+    point and series formatting, series-level data labels); `how` is a bit mask. Failures of the decoration
+    itself are not this property's concern (formatting setters are C09's)."""
+    try:
+        for plot in list(chart.plots)[:2]:
+            for si, ser in enumerate(list(plot.series)[:3]):
+                pts = ser.points
+                n = len(pts)
+                if how & 1 and n:
+                    pts[(si + how) % n].data_label.text_frame.text = "label %d" % si
+                if how & 2 and n:
+                    pts[0].format.fill.solid()
+                if how & 4:
+                    ser.format.line.width = 12700 * (1 + si)
+                if how & 8 and hasattr(type(ser), "data_labels"):
+                    ser.data_labels.show_value = True
+                    ser.data_labels.number_format = "0.0"
+    except Exception:
+        pass
+
+
 def _replace(chart, before_root, desc, report):
     """-> True when the chart was rewritten."""
     n_old = len(x_all_sers(before_root))
@@ -625,6 +647,9 @@ def execute(case, report):
         root = etree.fromstring(blob)
         idx_ok = check_idx_order(root, {"idx": False, "order": False}, "corpus", report)
     for desc in case["replacements"]:
+        if case.get("decorate"):
+            _decorate(chart, case["decorate"])
+            root = etree.fromstring(chart.part.blob)
         n_old = len(x_all_sers(root))
         if not _replace(chart, root, desc, report):
             break
@@ -740,6 +765,7 @@ def _gen_strategy(type_name):
         "via": st.sampled_from(["add_chart", "add_chart", "add_chart", "placeholder"]),
         "data": cdm.chart_data(kind, min_series=min_series),
         "replacements": st.lists(cdm.chart_data(kind, min_series=1), min_size=0, max_size=4),
+        "decorate": st.sampled_from([0, 0, 1, 3, 5, 9, 15]),
     })
 
 
@@ -752,7 +778,7 @@ def _corpus_strategy(kind):
     return st.tuples(st.sampled_from(charts), st.lists(cdm.chart_data(kind, min_series=1, max_points=120),
                                                        min_size=1, max_size=3)).map(
         lambda t: {"mode": "corpus", "deck": t[0][0], "slide": t[0][1], "shape": t[0][2], "kind": t[0][3],
-                   "n_series": t[0][5], "replacements": t[1]})
+                   "n_series": t[0][5], "replacements": t[1], "decorate": [0, 1, 5, 15][(len(t[1]) + t[0][1] + t[0][2]) % 4]})
 
 
 def run_job(job, seed, tier, rec, known):
